@@ -149,8 +149,18 @@ func (this *Hnsw) Load(r io.Reader, header bool) error {
 	var numEdges uint32
 	var distance float32
 
+	this.len = 0
+	this.bytesSize = 0
+	atomic.StorePointer(&this.entrypoint, nil)
+	for i, _ := range this.vertices {
+		this.vertices[i] = make(map[uuid.UUID]*hnswVertex)
+	}
+
 	uuidBuf := make([]byte, uuid.Size)
-	if _, err := io.ReadFull(r, uuidBuf); err != nil {
+	if _, err := io.ReadFull(r, uuidBuf); err == io.EOF {
+		// An empty index is saved as an empty stream
+		return nil
+	} else if err != nil {
 		return err
 	}
 	entrypointId, err := uuid.FromBytes(uuidBuf)
@@ -158,8 +168,6 @@ func (this *Hnsw) Load(r io.Reader, header bool) error {
 		return err
 	}
 
-	this.len = 0
-	this.bytesSize = 0
 	// Load vertices
 	var shardSize uint32
 	var vertex *hnswVertex
